@@ -3,7 +3,9 @@ package main
 import (
 	"bufio"
 	"context"
+	"database/sql"
 	"encoding/hex"
+	"errors"
 	"fmt"
 	"io"
 	"log/slog"
@@ -42,18 +44,40 @@ func runC08(seed int64, n int, long bool) {
 			return fmt.Sprintf("file:/c08_%d_%d.db?vfs=memdb", time.Now().UnixNano(), i)
 		}},
 		{"shared-cache-memory", func(dir string, i int) string { return ":memory:" }},
+		// connected with OpenDB on one caller-opened handle for both roles (redka's TestOpenDB)
+		{"opendb-one-handle", func(dir string, i int) string { return filepath.Join(dir, fmt.Sprintf("c08_%d.db", i)) }},
 	}
 	rounds := n
 	for ci, cfg := range cfgs {
 		if len(sum.Failures) > 0 {
 			break
 		}
-		db, err := redka.Open(cfg.path(dir, ci), nil)
+		var db *redka.DB
+		var err error
+		path := cfg.path(dir, ci)
+		if cfg.name == "opendb-one-handle" {
+			var sdb *sql.DB
+			if sdb, err = sql.Open("sqlite3", path); err == nil {
+				db, err = redka.OpenDB(sdb, sdb, nil)
+			}
+		} else {
+			db, err = redka.Open(path, nil)
+		}
 		if err != nil {
 			fail("harness", cfg.name+": "+err.Error(), nil)
 			continue
 		}
-		lockErrs := c08Handle(db, cfg.name, seed+int64(ci), rounds)
+		r := rounds
+		if cfg.name == "opendb-one-handle" {
+			r = rounds/4 + 1
+		}
+		lockErrs := c08Handle(db, cfg.name, seed+int64(ci), r)
+		if cfg.name == "opendb-one-handle" || cfg.name == "file-wal" {
+			lockErrs += c08KeyChurn(db, path, cfg.name)
+		}
+		if cfg.name == "file-wal" || long && cfg.name == "vfs-memdb" {
+			c08SlowTransaction(db, cfg.name)
+		}
 		db.Close()
 		if lockErrs > 0 {
 			if cfg.name == "shared-cache-memory" && listedKnown["kf_memory_shared_cache_locked"] {
@@ -69,6 +93,153 @@ func runC08(seed int64, n int, long bool) {
 	if len(sum.Failures) == 0 {
 		c08Server(seed, rounds)
 	}
+}
+
+// c08SlowTransaction: one goroutine keeps a transaction open for longer than SQLite's busy timeout
+// (5 s) while others write and read.  The writes wait and then succeed, the reads are answered at
+// once from the last committed state: nothing fails merely because the transaction is running.
+func c08SlowTransaction(db *redka.DB, cfg string) {
+	sum.Cases++
+	_ = db.Str().Set("slow", "0")
+	var wg sync.WaitGroup
+	started := make(chan struct{})
+	var txErr error
+	wg.Add(1)
+	go func() {
+		defer wg.Done()
+		txErr = db.Update(func(tx *redka.Tx) error {
+			if err := tx.Str().Set("slow", "1"); err != nil {
+				return err
+			}
+			close(started)
+			time.Sleep(5600 * time.Millisecond)
+			return tx.Str().Set("slow", "2")
+		})
+	}()
+	<-started
+	errs := make([]error, 3)
+	for w := 0; w < 2; w++ {
+		wg.Add(1)
+		go func(w int) {
+			defer wg.Done()
+			time.Sleep(time.Duration(50+200*w) * time.Millisecond)
+			if w == 0 {
+				errs[w] = db.Str().Set("other", "w")
+			} else {
+				_, errs[w] = db.List().PushBack("otherlist", "w")
+			}
+		}(w)
+	}
+	v, rerr := db.Str().Get("slow")
+	errs[2] = rerr
+	wg.Wait()
+	if txErr != nil {
+		fail("c08-spurious-error", fmt.Sprintf("%s: a transaction that stayed open for 5.6 s failed: %v", cfg, txErr), nil)
+		return
+	}
+	for i, err := range errs {
+		if err != nil {
+			what := []string{"Str().Set", "List().PushBack", "Str().Get"}[i]
+			fail("c08-spurious-error", fmt.Sprintf("%s: %s failed merely because another goroutine's transaction was open for 5.6 s (longer than the busy timeout): %v", cfg, what, err), nil)
+			return
+		}
+	}
+	if rerr == nil && v.String() != "0" {
+		fail("c08-torn-transaction", fmt.Sprintf("%s: a read during an open transaction saw its uncommitted write (slow=%q)", cfg, v.String()), nil)
+	}
+	if g, _ := db.Str().Get("slow"); g.String() != "2" {
+		fail("c08-lost-update", fmt.Sprintf("%s: after the slow transaction committed, its last write is not there (slow=%q)", cfg, g.String()), nil)
+	}
+	if g, _ := db.Str().Get("other"); g.String() != "w" {
+		fail("c08-lost-update", fmt.Sprintf("%s: the write that waited for the slow transaction reported success but is not there", cfg), nil)
+	}
+	count("slow_transaction_scenarios")
+}
+
+// c08KeyChurn: goroutines create collections and delete them again while others read inside
+// db.View (holding a connection for a moment).  Afterwards no element row may be left without
+// its key row (every connection that writes enforces the foreign keys), and a key created later
+// holds exactly what was put into it.  Returns the number of spurious lock errors.
+func c08KeyChurn(db *redka.DB, path, cfg string) int {
+	sum.Cases++
+	var lockErrs atomic.Int64
+	var wg sync.WaitGroup
+	stop := make(chan struct{})
+	for rd := 0; rd < 3; rd++ {
+		wg.Add(1)
+		go func() {
+			defer wg.Done()
+			for {
+				select {
+				case <-stop:
+					return
+				default:
+				}
+				_ = db.View(func(tx *redka.Tx) error {
+					_, _ = tx.Key().Len()
+					time.Sleep(300 * time.Microsecond)
+					return nil
+				})
+			}
+		}()
+	}
+	var ww sync.WaitGroup
+	for w := 0; w < 4; w++ {
+		ww.Add(1)
+		go func(w int) {
+			defer ww.Done()
+			for i := 0; i < 40; i++ {
+				k := fmt.Sprintf("churn%d_%d", w, i)
+				var err error
+				switch i % 4 {
+				case 0:
+					_, err = db.Set().Add(k, "a", "b", "c")
+				case 1:
+					_, err = db.Hash().SetMany(k, map[string]any{"f1": "1", "f2": "2"})
+				case 2:
+					_, err = db.List().PushBack(k, "a")
+					if err == nil {
+						_, err = db.List().PushBack(k, "b")
+					}
+				default:
+					_, err = db.ZSet().AddMany(k, map[any]float64{"m1": 1, "m2": 2})
+				}
+				if err == nil {
+					_, err = db.Key().Delete(k)
+				}
+				if err != nil {
+					if isLockErr(err) {
+						lockErrs.Add(1)
+					} else {
+						fail("c08-error", fmt.Sprintf("%s: creating and deleting %s failed under concurrency: %v", cfg, k, err), nil)
+					}
+				}
+			}
+		}(w)
+	}
+	ww.Wait()
+	close(stop)
+	wg.Wait()
+	raw, err := sql.Open("sqlite3", path)
+	if err != nil {
+		return int(lockErrs.Load())
+	}
+	defer raw.Close()
+	for _, t := range []string{"rstring", "rlist", "rset", "rhash", "rzset"} {
+		var n int
+		if err := raw.QueryRow("select count(*) from " + t + " where kid not in (select id from rkey)").Scan(&n); err == nil && n > 0 {
+			fail("c08-orphan-rows", fmt.Sprintf("%s: after concurrent create/delete of collections %d rows of %s belong to no key (a connection wrote without foreign-key enforcement); a key created next would inherit them", cfg, n, t), nil)
+			break
+		}
+	}
+	// a fresh collection holds exactly what is put into it
+	if _, err := db.Set().Add("churn-after", "x"); err == nil {
+		if items, err := db.Set().Items("churn-after"); err == nil && len(items) != 1 {
+			fail("c08-orphan-rows", fmt.Sprintf("%s: a set created with one member after the churn holds %d members", cfg, len(items)), nil)
+		}
+	}
+	count("key_churn_scenarios")
+	return int(lockErrs.Load())
 }
 
 func isLockErr(err error) bool {
@@ -488,6 +659,93 @@ func c08Server(seed int64, rounds int) {
 			fail("c08-torn-transaction", fmt.Sprintf("server: while one client kept writing the key with an expiry option (SET ... EXAT/PXAT/EX, SETEX), another client's atomic look (MULTI GET TTL EXEC) saw the value without its expiry %d times, e.g. %v", torn.Load(), tornMsg.Load()), nil)
 		}
 		count("option_atomicity_rounds")
+	}
+	// a single multi-key read is one atomic look: while a writer changes several keys in one
+	// atomic unit (MSET, a MULTI block, RENAME), a reader's single command never sees half of it
+	for round := 0; round < 2 && len(sum.Failures) == 0; round++ {
+		sfx := fmt.Sprintf("mk%d", round)
+		a, b, sa, sb, ra, rb := "a"+sfx, "b"+sfx, "sa"+sfx, "sb"+sfx, "ra"+sfx, "rb"+sfx
+		sum.Cases++
+		stop := make(chan struct{})
+		var torn atomic.Int64
+		var tornMsg atomic.Value
+		var wg sync.WaitGroup
+		if cl, err := hx.Dial(srv.Addr); err == nil {
+			cl.Do("MSET", a, "0", b, "0")
+			cl.Do("SET", ra, "x")
+			cl.Close()
+		}
+		for rd := 0; rd < 3; rd++ {
+			wg.Add(1)
+			go func(rd int) {
+				defer wg.Done()
+				cl, err := hx.Dial(srv.Addr)
+				if err != nil {
+					return
+				}
+				defer cl.Close()
+				for i := 0; ; i++ {
+					select {
+					case <-stop:
+						return
+					default:
+					}
+					switch (i + rd) % 3 {
+					case 0:
+						v, err := cl.Do("MGET", a, b)
+						if err == nil && v.Kind == '*' && len(v.Arr) == 2 && string(v.Arr[0].Str) != string(v.Arr[1].Str) {
+							torn.Add(1)
+							tornMsg.Store(fmt.Sprintf("MGET %s %s answered %q and %q; the writer only ever sets both to the same value in one MSET / MULTI block", a, b, v.Arr[0].Str, v.Arr[1].Str))
+						}
+					case 1:
+						v, err := cl.Do("SDIFF", sa, sb)
+						if err == nil && v.Kind == '*' && len(v.Arr) != 0 {
+							torn.Add(1)
+							tornMsg.Store(fmt.Sprintf("SDIFF %s %s answered %d members; the writer only ever adds a member to both sets in one MULTI block", sa, sb, len(v.Arr)))
+						}
+					default:
+						v, err := cl.Do("EXISTS", ra, rb)
+						if err == nil && v.Kind == ':' && v.Int != 1 {
+							torn.Add(1)
+							tornMsg.Store(fmt.Sprintf("EXISTS %s %s answered %d; the writer only ever renames one to the other, exactly one exists at every instant", ra, rb, v.Int))
+						}
+					}
+				}
+			}(rd)
+		}
+		wcl, err := hx.Dial(srv.Addr)
+		if err == nil {
+			for i := 1; i <= 1200; i++ {
+				val := fmt.Sprint(i)
+				switch i % 4 {
+				case 0:
+					wcl.Do("MSET", a, val, b, val)
+				case 1:
+					wcl.Do("MULTI")
+					wcl.Do("SET", b, val)
+					wcl.Do("SET", a, val)
+					wcl.Do("EXEC")
+				case 2:
+					wcl.Do("MULTI")
+					wcl.Do("SADD", sa, val)
+					wcl.Do("SADD", sb, val)
+					wcl.Do("EXEC")
+				default:
+					if i%8 == 3 {
+						wcl.Do("RENAME", ra, rb)
+					} else {
+						wcl.Do("RENAME", rb, ra)
+					}
+				}
+			}
+			wcl.Close()
+		}
+		close(stop)
+		wg.Wait()
+		if torn.Load() > 0 {
+			fail("c08-torn-transaction", fmt.Sprintf("server: a single multi-key read saw half of an atomic multi-key write %d times, e.g. %v", torn.Load(), tornMsg.Load()), nil)
+		}
+		count("multi_key_read_rounds")
 	}
 }
 
@@ -1022,6 +1280,9 @@ func runC09(seed int64, n int, long bool) {
 	}
 	if len(sum.Failures) == 0 {
 		c09Reopen(dir, seed)
+		if len(sum.Failures) == 0 {
+			c09Transactions(dir, seed)
+		}
 	}
 	if len(sum.Failures) == 0 {
 		c09ServerKill(dir, seed, long)
@@ -1066,6 +1327,98 @@ func c09Reopen(dir string, seed int64) {
 				fail("c09-content", fmt.Sprintf("content changed by close / re-open after %d operations\n before: %s\n after : %s", i+1, before.Text, c2.Text), nil)
 				return
 			}
+		}
+	}
+}
+
+// c09Transactions: the workloads once more, three operations per db.Update block.  A block whose
+// operations all succeeded and whose Update returned nil is acknowledged; the database - before
+// Close, after Close and read-only re-open, after read-write re-open - then holds what the same
+// operations issued one by one on the plain handle give (a crash-free twin in memory).
+func c09Transactions(dir string, seed int64) {
+	skip := map[string]bool{"EPop": true, "ERandom": true, "KRandom": true, "KDeleteAll": true, "KDeleteExpired": true}
+	for wl := range crashFamilies {
+		path := filepath.Join(dir, fmt.Sprintf("tx%d.db", wl))
+		x, err := hx.OpenPath(path)
+		if err != nil {
+			fail("harness", err.Error(), nil)
+			return
+		}
+		twin, err := redka.Open(fmt.Sprintf("file:/c09tx_%d_%d.db?vfs=memdb", time.Now().UnixNano(), wl), nil)
+		if err != nil {
+			x.Close()
+			fail("harness", err.Error(), nil)
+			return
+		}
+		xt := &hx.Exec{DB: twin}
+		var ops []*hx.Op
+		for _, op := range crashOps(seed+2, wl) {
+			if !skip[op.Name] && op.Run != nil {
+				ops = append(ops, op)
+			}
+		}
+		var acked []string
+		for i := 0; i < len(ops); i += 3 {
+			blk := ops[i:min(i+3, len(ops))]
+			failed := false
+			err := x.DB.Update(func(tx *redka.Tx) error {
+				for _, op := range blk {
+					if res := op.Run(hxTx(tx), x, op); res.Err != "" {
+						failed = true
+						return errors.New("abort")
+					}
+				}
+				return nil
+			})
+			if err != nil || failed {
+				count("transactions_rolled_back")
+				continue
+			}
+			count("transactions_acknowledged")
+			for _, op := range blk {
+				op.Run(hxDB(twin), xt, op)
+			}
+			acked = append(acked, "["+describeOps(blk...)+"]")
+		}
+		want, _ := hx.ContentOfDB(twin)
+		twin.Close()
+		sum.Cases++
+		tail := acked
+		if len(tail) > 6 {
+			tail = tail[len(tail)-6:]
+		}
+		check := func(when string, got hx.Content, err error) bool {
+			if err != nil || got.Text != want.Text {
+				fail("c09-content", fmt.Sprintf("workload %s, %d acknowledged transactions (the last: %s): %s the database does not hold what the same operations give one by one (%v)\n stored  : %s\n expected: %s",
+					crashFamilies[wl], len(acked), strings.Join(tail, " "), when, err, got.Text, want.Text), nil)
+				return false
+			}
+			return true
+		}
+		got, err := hx.ContentOfDB(x.DB)
+		x.Close()
+		if !check("before Close", got, err) {
+			return
+		}
+		ro, err := redka.OpenRead(path, nil)
+		if err != nil {
+			fail("c09-reopen", "re-open (read-only): "+err.Error(), nil)
+			return
+		}
+		got, err = hx.ContentOfDB(ro)
+		ro.Close()
+		if !check("after Close and read-only re-open", got, err) {
+			return
+		}
+		rw, err := redka.Open(path, nil)
+		if err != nil {
+			fail("c09-reopen", "re-open (rw): "+err.Error(), nil)
+			return
+		}
+		got, err = hx.ContentOfDB(rw)
+		rw.Close()
+		if !check("after Close and re-open", got, err) {
+			return
 		}
 	}
 }
@@ -1255,7 +1608,15 @@ func startBg(dir, name string, opts *redka.Options, total int, expired func(i in
 }
 
 func startBgLoad(dir, name string, opts *redka.Options, total int, expired func(i int) bool, load bool) (*bgRun, error) {
-	x, err := hx.OpenPathOpts(filepath.Join(dir, name+".db"), opts)
+	oneHandle := strings.HasPrefix(name, "opendb-")
+	var x *hx.Exec
+	var err error
+	if oneHandle {
+		// connected through OpenDB with one caller-opened handle for both roles
+		x, err = hx.OpenPathOneHandle(filepath.Join(dir, name+".db"), opts)
+	} else {
+		x, err = hx.OpenPathOpts(filepath.Join(dir, name+".db"), opts)
+	}
 	if err != nil {
 		return nil, err
 	}
@@ -1263,7 +1624,8 @@ func startBgLoad(dir, name string, opts *redka.Options, total int, expired func(
 	b.live, b.dead = populate(x, total, expired)
 	// make database/sql replace the read-write connection before the tick (a transaction whose
 	// context is cancelled while it runs): the reclamation must work on the new connection as well
-	{
+	// (not on a caller-opened handle: there the caller is responsible for per-connection settings)
+	if !oneHandle {
 		ctx, cancel := context.WithCancel(context.Background())
 		_ = x.DB.UpdateContext(ctx, func(tx *redka.Tx) error {
 			_ = tx.Str().Set("cancelled-1", "1")
@@ -1409,6 +1771,12 @@ func runC20(seed int64, n int, long bool) {
 		fail("harness", err.Error(), nil)
 		return
 	}
+	// ... and a database connected with OpenDB on one caller-opened handle (as redka's TestOpenDB does)
+	bgE, err := startBg(dir, "opendb-one-handle", nil, 600, func(i int) bool { return i%2 == 0 })
+	if err != nil {
+		fail("harness", err.Error(), nil)
+		return
+	}
 	// the reclamation step itself (what the background goroutine calls) on mixed populations
 	for round := 0; round < n && len(sum.Failures) == 0; round++ {
 		var x *hx.Exec
@@ -1463,6 +1831,7 @@ func runC20(seed int64, n int, long bool) {
 	limit := 75 * time.Second
 	bgA.finish(limit)
 	bgB.finish(limit)
+	bgE.finish(limit)
 	if !long || len(sum.Failures) > 0 {
 		return
 	}
